@@ -552,7 +552,7 @@ func TemplateVariant(v int) []PhaseSpec {
 	switch v % 4 {
 	case 0:
 		return []PhaseSpec{
-			{Name: "p1", Objects: []*unstructured.Unstructured{ConfigMap("shared", "x"), Widget("w1", 1)}},
+			{Name: "p1", Objects: []*unstructured.Unstructured{ConfigMap("shared", "x"), deepWidget("w1", 1, 1)}},
 			{Name: "p2", Objects: []*unstructured.Unstructured{ConfigMap("dropped", "x")}},
 		}
 	case 1:
@@ -566,9 +566,22 @@ func TemplateVariant(v int) []PhaseSpec {
 			{Name: "p2", Objects: []*unstructured.Unstructured{Widget("w3", 1)}},
 		}
 	}
+	// variant 3 = variant 0 with ONE value changed, twelve levels deep inside an object
 	return []PhaseSpec{
-		{Name: "p1", Objects: []*unstructured.Unstructured{ConfigMap("other", "x")}},
+		{Name: "p1", Objects: []*unstructured.Unstructured{ConfigMap("shared", "x"), deepWidget("w1", 1, 2)}},
+		{Name: "p2", Objects: []*unstructured.Unstructured{ConfigMap("dropped", "x")}},
 	}
+}
+
+// deepWidget is a Widget with a value nested deep inside its spec (spec.deep.a.b.c.d.e.f.g.h.i.j).
+func deepWidget(name string, size, leaf int64) *unstructured.Unstructured {
+	u := Widget(name, size)
+	var v any = leaf
+	for _, k := range []string{"j", "i", "h", "g", "f", "e", "d", "c", "b", "a"} {
+		v = map[string]any{k: v}
+	}
+	u.Object["spec"].(map[string]any)["deep"] = v
+	return u
 }
 
 // EnvSetTemplate edits the template of an ObjectDeployment (user action).
